@@ -54,9 +54,19 @@ def run_check(prop: str, tier: str, verif_seed: int, runs: int | None, shrink_en
     known = load_known()
     pools = Pools()
     items = []
-    for i in range(n):
-        s = P.run_seed(prop, verif_seed, i)
-        items.append((i, s, P.devices_for(prop, s)))
+    if prop == "C03":
+        # knob replay: every history is executed in three processes with different device counts
+        import random as _r
+
+        for j in range(max(1, n // 3)):
+            s = P.run_seed(prop, verif_seed, j)
+            others = _r.Random(s ^ 0xD0).sample([2, 3, 4, 8], 2)
+            for d in [1] + sorted(others):
+                items.append((len(items), s, d))
+    else:
+        for i in range(n):
+            s = P.run_seed(prop, verif_seed, i)
+            items.append((i, s, P.devices_for(prop, s)))
     print(f"[{prop}/{tier}] VERIF_SEED={verif_seed} runs={n} workers={pools.total} wall cap={cap:.0f}s", flush=True)
     extra = {}
     results = []
